@@ -20,7 +20,8 @@ import (
 // VerifC18Enforce: Enforce (ontology traversal subject -> parent roles -> child policies, policy retrieval,
 // allowRequest) grants exactly when every requested object is covered by a policy that grants the action and is
 // attached to a role currently assigned to the subject — for two roles, two policies with arbitrary attachment
-// and content, arbitrary assignments of two subjects, and one assign/unassign/attach step before the check.
+// and content, arbitrary assignments of two subjects, and one assign/unassign/attach/delete-role/delete-policy step before
+// the check.
 func VerifC18Enforce() {
 	ctx := context.Background()
 	store := &gorp.VerifKV{}
@@ -43,6 +44,7 @@ func VerifC18Enforce() {
 		must(ow.DefineResource(ctx, s))
 	}
 	for _, r := range roles {
+		must(role.VerifStoreRole(ctx, rol, role.Role{Key: r, Name: "r"}))
 		must(ow.DefineResource(ctx, role.OntologyID(r)))
 	}
 	actions := [2]access.Action{access.ActionRetrieve, access.ActionCreate}
@@ -87,7 +89,11 @@ func VerifC18Enforce() {
 		}
 	}
 	// one change right before the check
-	switch verifLen("step", 0, verifParam("steps", 3)) {
+	step := verifLen("step", 0, verifParam("steps", 3))
+	if verifParam("quicksteps", 0) == 1 {
+		verifAssume(step == 0 || step == 1 || step == 4)
+	}
+	switch step {
 	case 1:
 		r := verifLen("step.role", 0, 1)
 		must(rw.UnassignRole(ctx, subjects[0], roles[r]))
@@ -101,6 +107,19 @@ func VerifC18Enforce() {
 			attached[0] = 1 + verifLen("step.role", 0, 1)
 			must(pw.SetOnRole(ctx, roles[attached[0]-1], pkeys[0]))
 		}
+	case 4: // delete a role: whatever it granted is gone
+		r := verifLen("step.role", 0, 1)
+		must(rw.Delete(ctx, roles[r]))
+		for i := range attached {
+			if attached[i] == r+1 {
+				attached[i] = 0
+			}
+		}
+		assigned[0][r], assigned[1][r] = false, false
+	case 5: // delete a policy
+		i := verifLen("step.policy", 0, 1)
+		must(pw.Delete(ctx, pkeys[i]))
+		attached[i] = 0
 	}
 	req := access.Request{Subject: subjects[0], Action: actions[verifLen("request.action", 0, 1)]}
 	no := verifLen("request.objects", 1, verifParam("objects", 1))
